@@ -276,9 +276,14 @@ CLAIMS["C08"] = dict(
          "check_use_limit over limit x group_by x having x distinct x aggregate targets x 66 join-sequence shapes; process_table "
          "over use_limit x conjunct counts x OR x order-by origin x offset (LIMIT/OFFSET/ORDER moved only when every WHERE conjunct "
          "is applied in that fetch, ordering columns are its own, OFFSET in exactly one place); plan() re-applies the complete "
-         "outer query; a CTE shadows only an unqualified name.",
-    note="One known finding (pinned by two existing tests): the kind of the last join is never inspected, so LIMIT/OFFSET go below "
-         "an INNER JOIN. Not analysed: plan_union, plan_nested_select, api-db split, NULL keys in the IN semi-join.",
+         "outer query; a CTE shadows only an unqualified name; a sub-select member of a join is planned as written and the outer "
+         "conditions on it are applied once (inside only for shapes where that commutes); the semi-join filter of each table takes the "
+         "distinct values of the column of the table it names (chain of three tables with equally named keys); set operations become one "
+         "UnionStep over unchanged operands; plan_api_db_select over group_by x having x distinct x offset x targets x limit sends LIMIT "
+         "to an api integration only when it counts fetched rows and re-applies everything else outside.",
+    note="Two known findings (pinned by existing tests): the kind of the last join is never inspected, so LIMIT/OFFSET/ORDER BY go below "
+         "an INNER JOIN; OFFSET is moved into the first fetch and counts rows of the table instead of rows of the join. Not analysed: "
+         "plan_nested_select, NULL keys in the IN semi-join.",
     technique="abstract interpretation of the planner's decision functions over finite fact spaces (truth tables) against reference pushdown conditions")
 
 CLAIMS["C14"] = dict(
